@@ -1,12 +1,108 @@
 /-
-  UnytModel.Ops.C14 — opcodes of the C14 model (prefix `c14.`).
+  UnytModel.Ops.C14 — opcodes of the C14 model (prefix `c14.`): the string route and the three
+  attribute routes of `UnytModel/Names.lean` at `Float`, the reference reader, the Python string
+  methods, the generator model, and dumps of the regenerated tables (translator self-check).
+  Names travel as text; the handler converts to and from codes.
 -/
 import UnytModel.DriverBase
+import UnytModel.C14Check
+import UnytModel.NameGen
 
 namespace Unyt
+open Unyt.Names Unyt.C14 Unyt.Generated.C14
 
-def opsC14 : Handler := fun _st fields =>
+namespace C14Ops
+
+def showName (n : Name) : String := if n == C14.absent then "<absent>" else Name.toString n
+
+def ctxF : Ctx Float := C14.ctx Float
+def customCtxF : Ctx Float := C14.customCtx Float
+
+def pickCtx (reg : String) : Option (Ctx Float) :=
+  if reg == "default" then some ctxF else if reg == "custom" then some customCtxF else none
+
+def readingOut : Option Reading → String
+  | some .one => "one"
+  | some (.sym s p b) => s!"sym\t{showName s}\t{showName p}\t{showName b}"
+  | none => "none"
+
+def verdictOut (s : Name) : String :=
+  let all := Ref.C14.allReadings charTable baseTreeC s
+  let allS := ";".intercalate (all.map fun (k, c) => s!"{k}:{showName c}")
+  match refVerdict s with
+  | .unknown => s!"unknown\t\t\t{allS}"
+  | .ambiguous => s!"ambiguous\t\t\t{allS}"
+  | .unique k c => s!"unique\t{k}\t{showName c}\t{allS}"
+
+def findRow (n : Name) : Option NameRow := allRows.find? fun r => r.name == n
+
+end C14Ops
+
+open C14Ops in
+def opsC14 : Handler := fun st fields =>
   match fields with
+  -- string route: symbol, prefix, base, scale, offset, dimension
+  | ["c14.resolve", reg, name] =>
+    match pickCtx reg with
+    | none => none
+    | some c =>
+      let n := Name.ofString name
+      match stringReading c n, stringEntry c n with
+      | some r, some e =>
+        some (st, s!"ok\t{readingOut (some r)}\t{bitsStr e.scale}\t{bitsStr e.offset}\t{e.dim.str}")
+      | none, none => some (st, "err\tUnitParseError")
+      | _, _ => some (st, "inconsistent")
+  -- attribute routes (symbolic) and the value the attribute's symbol has in the registry
+  | ["c14.attr", route, name] =>
+    let n := Name.ofString name
+    let r := if route == "us" then some (unitSymbolsAttr ctxF n, ctxF)
+      else if route == "top" then some (topLevelAttr ctxF shadowedC n, ctxF)
+      else if route == "custom" then some (addSymbolsAttr customCtxF n, customCtxF) else none
+    match r with
+    | none => none
+    | some (rd, c) =>
+      match rd with
+      | some (.sym s _ _) =>
+        match Names.lookupUnitSymbol c.pre c.lut s with
+        | some e => some (st, s!"ok\t{readingOut rd}\t{bitsStr e.scale}\t{bitsStr e.offset}\t{e.dim.str}")
+        | none => some (st, s!"ok\t{readingOut rd}\tnone")
+      | _ => some (st, s!"ok\t{readingOut rd}")
+  | ["c14.ref", name] => some (st, verdictOut (Name.ofString name))
+  | ["c14.excluded", name] => some (st, if excluded (Name.ofString name) then "1" else "0")
+  -- translator self-check: the generated row of a listed name
+  | ["c14.row", name] =>
+    match findRow (Name.ofString name), invTree.get? (Name.ofString name) with
+    | some r, some (o, k) =>
+      some (st, s!"ok\t{showName r.okey}\t{showName r.nkey}\t{showName r.usSym}\t{showName r.topSym}\t{showName r.customSym}\t{showName o}\t{showName k}")
+    | _, _ => some (st, "none")
+  | ["c14.counts"] =>
+    some (st, s!"ok\t{allRows.length}\t{invTree.size}\t{lutC.length}\t{prefixesC.length}\t{baseRowsC.length}\t{altsInC.length}\t{namesOutC.length}\t{shadowedC.length}\t{customLutC.length}")
+  | ["c14.lutrow", reg, key] =>
+    match pickCtx reg with
+    | none => none
+    | some c =>
+      match c.lut.get? (Name.ofString key) with
+      | some e => some (st, s!"ok\t{bitsStr e.scale}\t{bitsStr e.offset}\t{e.dim.str}\t{if e.prefixable then 1 else 0}")
+      | none => some (st, "none")
+  | ["c14.prefix", key] =>
+    match ctxF.pre.get? (Name.ofString key), findN (Name.ofString key) prefixWordsC with
+    | some v, some w => some (st, s!"ok\t{bitsStr v}\t{showName w}")
+    | _, _ => some (st, "none")
+  -- Python string methods of the generator
+  | ["c14.title", s] => some (st, "ok\t" ++ Name.toString (Name.title charTable (Name.ofString s)))
+  | ["c14.lower", s] => some (st, "ok\t" ++ Name.toString (Name.lower charTable (Name.ofString s)))
+  | ["c14.islower", s] => some (st, if Name.isLower charTable (Name.ofString s) then "ok\t1" else "ok\t0")
+  | ["c14.rewrite", s] => some (st, "ok\t" ++ Name.toString (Names.parserRewrite (Name.ofString s)))
+  | ["c14.split_", s] =>
+    some (st, "ok\t" ++ "|".intercalate ((Py.splitUnderscore (Name.chars (Name.ofString s))).map fun w => Name.toString (Name.ofChars w)))
+  -- the generator model run on the regenerated inputs
+  | ["c14.gen"] =>
+    match C14.generateDefault with
+    | .error (k, o) => some (st, s!"err\tRuntimeError\t{showName k}\t{showName o}")
+    | .ok g =>
+      let inv := ";".intercalate (g.invList.map fun (k, o) => s!"{showName k}={showName o}")
+      let names := ";".intercalate (g.namesList.map fun (k, as) => s!"{showName k}=" ++ ",".intercalate (as.map showName))
+      some (st, s!"ok\t{inv}\t{names}")
   | _ => none
 
 end Unyt
